@@ -597,6 +597,22 @@ pub mod d8002 {
 """)
         index.append({"k": 8003, "extra": True, "user_abi": True, "d": {"recv": "ref", "arg": "wrapped shapes", "ret": "methods declared extern \"C\" by the user", "ir": False}, "sig": None,
                       "probe_types": ["crate::d8003::TBox<'static>", "crate::d8003::TRef<'static>", "crate::d8003::TArcBox<'static>"]})
+        # Option around cglue's own containers: multi-word #[repr(C)] structs, not pointer wrappers - `Option<CBox<T>>` has no
+        # C representation however non-null its first field is, and has to cross as COption like any other Option
+        parts.append("""pub mod d8004 {
+    use super::*;
+    #[cglue_trait]
+    pub trait T {
+        fn put(&mut self, a: Option<CBox<'static, u32>>) -> u32;
+        fn shared(&self) -> Option<CArcSome<u32>>;
+        fn shared_in(&self, a: Option<CArcSome<u32>>) -> Option<CBox<'static, u32>>;
+        fn ctx(&self, a: Option<CArc<u32>>) -> u64;
+        fn sl(&self, a: Option<CSliceRef<'static, u8>>) -> Option<CSliceBox<'static, u8>>;
+    }
+}
+""")
+        index.append({"k": 8004, "extra": True, "d": {"recv": "ref", "arg": "Option around CBox / CArcSome / CArc / CSliceRef", "ret": "Option around CArcSome / CBox / CSliceBox", "ir": False}, "sig": None,
+                      "probe_types": ["crate::d8004::TBox<'static>", "crate::d8004::TRef<'static>"]})
         index.append({"k": 8001, "extra": True, "d": {"recv": "ref", "arg": "none", "ret": "wrapped objects (owned, by reference, by mutable reference)", "ir": False}, "sig": None,
                       "probe_types": ["crate::d8001::InBox<'static>"]})
         index.append({"k": 8002, "extra": True, "d": {"recv": "ref", "arg": "none", "ret": "group with two optional traits; group-wrapped returns", "ir": False}, "sig": None,
